@@ -12,7 +12,9 @@ import VecModel.Model.Preprocess
   `events`  = the code's loops, emitting `(row, col + w·n, val)` with the `val > 0` filter and
               `if total <= 0: total = 1`;
   `cellSum` = the matrix cell (COO duplicates summed — `coo_utils` is Model/Coo, C04);
-  `spec`    = the declarative, position-based definition of the property text.
+  `spec`    = the declarative, position-based definition of the property text (token / timed);
+  `specNgram`, `specMulti` = the same for n-gram rows and for multisets
+              (`*_events_eq_spec` in Props/C03.lean prove each generator equal to its definition).
   Radii are an input (`Block.radius`, a row of `_window_len_array`).
   Token and timed sequences share one definition: a sequence is a list of (token, time stamp);
   the base weight of the `k`-th window entry with time difference `dt` is `Block.w k dt`
@@ -185,6 +187,77 @@ def ngramOccs (cfg : Cfg) (nd : NgramDict) (nsize : Nat) (S : List (List Nat)) :
 def ngramEvents (cfg : Cfg) (nd : NgramDict) (nsize : Nat) (S : List (List Nat)) : List Event :=
   (ngramOccs cfg nd nsize S).flatMap (Occ.events cfg.n cfg.normWin)
 
+/-! #### n-gram rows: the declarative, position-based definition
+
+Row `g` collects every position `k` of every sequence at which a *complete* n-gram starts
+(`k + n ≤ len`) that the n-gram dictionary maps to `g`. The window of block `w` is anchored at the
+n-gram's first token `k` ('before': the positions `< k`) or at its last token `k + n - 1` ('after':
+the positions `> k + n - 1`), has the radius of row `g`, and position `j` in it has kernel position
+`gap anchor j` (0 = adjacent to the n-gram). Nothing here mentions `window_at_index`, kernels on
+arrays or COO events. -/
+
+/-- anchor of the windows of the n-gram starting at `k`: first token for 'before', last for 'after' -/
+def ngAnchor (rev : Bool) (k nsize : Nat) : Nat := if rev then k else k + (nsize - 1)
+
+/-- weight of context position `j` for the n-gram row `g` anchored at `a`, before normalisation:
+0 outside the window, 0 for the mask token, 0 within `offset` of the anchor, else the base weight -/
+def ngRaw (b : Block) (s : List Nat) (g a j : Nat) : Rat :=
+  match s[j]? with
+  | some ctx =>
+    if inWin b.rev (b.radius g) a j then
+      if b.args.mask = some ctx then 0
+      else if gap a j < b.args.offset then 0
+      else b.w (gap a j) 0
+    else 0
+  | none => 0
+
+/-- kernel-level L1 normalisation constant -/
+def ngZ (b : Block) (s : List Nat) (g a : Nat) : Rat := sumTo s.length fun j => ngRaw b s g a j
+
+/-- mix-weighted kernel value of context position `j` -/
+def ngKer (b : Block) (s : List Nat) (g a j : Nat) : Rat :=
+  b.mix * (if b.args.normalize then
+      (if ngZ b s g a > 0 then ngRaw b s g a j / ngZ b s g a else ngRaw b s g a j)
+    else ngRaw b s g a j)
+
+/-- window total of the n-gram `g` starting at `k` (1 when window normalisation is off or the total
+is not positive) -/
+def ngTotal (cfg : Cfg) (s : List Nat) (nsize g k : Nat) : Rat :=
+  let t : Rat :=
+    if cfg.normWin then
+      sumOver cfg.blocks fun b => sumTo s.length fun j => ngKer b s g (ngAnchor b.rev k nsize) j
+    else 0
+  if t ≤ 0 then 1 else t
+
+/-- **the definition (n-gram rows)**: entry `(g, c)` = sum over every sequence, every start position
+`k` of a complete n-gram that is the kept n-gram `g`, every block `w` and every context position `j`
+whose token `x` satisfies `x + w·n = c`, of `mix · kernel / window total`. -/
+def specNgram (cfg : Cfg) (nd : NgramDict) (nsize : Nat) (S : List (List Nat)) (g c : Nat) : Rat :=
+  sumOver S fun s => sumTo s.length fun k =>
+    if k + nsize ≤ s.length ∧ nd.lookup ((s.drop k).take nsize) = some g then
+      sumOver cfg.blocks.zipIdx fun bw => sumTo s.length fun j =>
+        match s[j]? with
+        | some ctx =>
+          if ctx + bw.2 * cfg.n = c then
+            pos (ngKer bw.1 s g (ngAnchor bw.1.rev k nsize) j / ngTotal cfg s nsize g k)
+          else 0
+        | none => 0
+    else 0
+
+/-- the same without the `val > 0` filter (what the property text literally says); equal to
+`specNgram` for non-negative mix and base weights -/
+def specNgramPlain (cfg : Cfg) (nd : NgramDict) (nsize : Nat) (S : List (List Nat)) (g c : Nat) : Rat :=
+  sumOver S fun s => sumTo s.length fun k =>
+    if k + nsize ≤ s.length ∧ nd.lookup ((s.drop k).take nsize) = some g then
+      sumOver cfg.blocks.zipIdx fun bw => sumTo s.length fun j =>
+        match s[j]? with
+        | some ctx =>
+          if ctx + bw.2 * cfg.n = c then
+            ngKer bw.1 s g (ngAnchor bw.1.rev k nsize) j / ngTotal cfg s nsize g k
+          else 0
+        | none => 0
+    else 0
+
 /-! ### multisets (multi_token_cooccurence_vectorizer.py:88-136)
 
 One call handles one document = a list of multisets. For the target at position `w` of multiset
@@ -219,6 +292,83 @@ def multiEvents (cfg : Cfg) (mask : Option Nat) (docs : List (List (List Nat))) 
     Except Err (List Event) := do
   let occs ← multiOccs cfg docs
   pure (clearRow mask (occs.flatMap (Occ.events cfg.n cfg.normWin)))
+
+/-! #### multisets: the declarative, position-based definition
+
+A document is a list of multisets; a *position* is a pair `(e, v)`: entry `v` of multiset `e`.
+For a target occurrence at `(d, w)` with token `tgt` the window of a block consists of every
+position of the multisets `d, d+1, …, d+ρ` ('after') resp. `d, d-1, …, d-ρ` ('before'),
+`ρ = radius tgt`, **except the target position itself**; a multiset at distance `m = |e - d|` has
+weight 0 when `m < offset` and base weight `w (m - offset)` otherwise (the first `offset` multisets
+of the window, the target's own first, are skipped and the remaining ones are counted from 0 — the
+offset semantics of `multi_flat_kernel` / `multi_geometric_kernel` after the alignment fix); mask
+tokens have weight 0. Nothing here mentions windows as lists, flattening or COO events. -/
+
+/-- distance in multisets between the target's multiset `d` and multiset `e` -/
+def mdist (d e : Nat) : Nat := if d ≤ e then e - d else d - e
+
+/-- multiset `e` belongs to the window of radius `ρ` of a target in multiset `d`: the target's own
+multiset and the `ρ` multisets before (`rev`) / after it -/
+def inMWin (rev : Bool) (ρ d e : Nat) : Bool :=
+  if rev then decide (e ≤ d) && decide (d ≤ e + ρ) else decide (d ≤ e) && decide (e ≤ d + ρ)
+
+/-- weight, before normalisation, of the context position `(e, v)` holding token `ctx` for the
+target `tgt` at position `(d, w)` -/
+def mRaw (b : Block) (tgt d w ctx e v : Nat) : Rat :=
+  if inMWin b.rev (b.radius tgt) d e then
+    if e = d ∧ v = w then 0
+    else if mdist d e < b.args.offset then 0
+    else if b.args.mask = some ctx then 0
+    else b.w (mdist d e - b.args.offset) 0
+  else 0
+
+/-- `Σ` over all positions `(e, v)` of a document, with the token `ctx` at that position:
+`sumDoc doc f = Σ_e Σ_v f doc[e][v] e v` -/
+def sumDoc (doc : List (List Nat)) (f : Nat → Nat → Nat → Rat) : Rat :=
+  sumOver doc.zipIdx fun me => sumOver me.1.zipIdx fun cv => f cv.1 me.2 cv.2
+
+/-- kernel-level L1 normalisation constant -/
+def mZ (b : Block) (doc : List (List Nat)) (tgt d w : Nat) : Rat :=
+  sumDoc doc fun ctx e v => mRaw b tgt d w ctx e v
+
+/-- mix-weighted kernel value of the context position `(e, v)` -/
+def mKer (b : Block) (doc : List (List Nat)) (tgt d w ctx e v : Nat) : Rat :=
+  b.mix * (if b.args.normalize then
+      (if mZ b doc tgt d w > 0 then mRaw b tgt d w ctx e v / mZ b doc tgt d w
+       else mRaw b tgt d w ctx e v)
+    else mRaw b tgt d w ctx e v)
+
+/-- window total of the target at `(d, w)` (1 when window normalisation is off or the total is not
+positive) -/
+def mTotal (cfg : Cfg) (doc : List (List Nat)) (tgt d w : Nat) : Rat :=
+  let t : Rat :=
+    if cfg.normWin then
+      sumOver cfg.blocks fun b => sumDoc doc fun ctx e v => mKer b doc tgt d w ctx e v
+    else 0
+  if t ≤ 0 then 1 else t
+
+/-- **the definition (multisets)**: entry `(r, c)` = sum over every document, every position
+`(d, w)` holding the row token `r`, every block `k` and every position `(e, v)` of the same document
+whose token `x` satisfies `x + k·n = c`, of `mix · kernel / window total`; the row of the nullified
+mask token (`mask = some r`, `_build_coo` after the fix) is empty. -/
+def specMulti (cfg : Cfg) (mask : Option Nat) (docs : List (List (List Nat))) (r c : Nat) : Rat :=
+  if mask = some r then 0 else
+  sumOver docs fun doc => sumDoc doc fun tgt d w =>
+    if tgt = r then
+      sumOver cfg.blocks.zipIdx fun bw => sumDoc doc fun ctx e v =>
+        if ctx + bw.2 * cfg.n = c then
+          pos (mKer bw.1 doc tgt d w ctx e v / mTotal cfg doc tgt d w)
+        else 0
+    else 0
+
+/-- the same without the `val > 0` filter; equal to `specMulti` for non-negative mix and base weights -/
+def specMultiPlain (cfg : Cfg) (mask : Option Nat) (docs : List (List (List Nat))) (r c : Nat) : Rat :=
+  if mask = some r then 0 else
+  sumOver docs fun doc => sumDoc doc fun tgt d w =>
+    if tgt = r then
+      sumOver cfg.blocks.zipIdx fun bw => sumDoc doc fun ctx e v =>
+        if ctx + bw.2 * cfg.n = c then mKer bw.1 doc tgt d w ctx e v / mTotal cfg doc tgt d w else 0
+    else 0
 
 /-! ### checked table reads
 
